@@ -12,6 +12,7 @@ import (
 	"github.com/evanw/esbuild/pkg/api"
 	"github.com/evanw/esbuild/verif/corpus"
 	"github.com/evanw/esbuild/verif/jsgen"
+	"github.com/evanw/esbuild/verif/jslib"
 	"github.com/evanw/esbuild/verif/jsref"
 	"github.com/evanw/esbuild/verif/jsutil"
 	"github.com/evanw/esbuild/verif/noderun"
@@ -465,13 +466,13 @@ func drawVariant(rt *rapid.T, c *Case) {
 var wrappers = []string{"@", "@", "function w() { @\n}", "function w() { 'use strict'; @\n}", "var w = () => { @\n}", "{ @\n}", "function* w() { @\n}", "async function w() { @\n}", "class W { m() { @\n} }", "if (1) { @\n}", "L: { @\n}", "'use strict'; @", "@\nexport {}", "export default function () { @\n}"}
 
 func runRare(t *testing.T) {
-	H.Rule("rare", fmt.Sprintf("rapid: sequences of 1–3 entries from a table of %d rare grammar productions (ASI boundaries, regex-vs-division, contextual keywords as identifiers, cover grammars, labelled functions, HTML comments, numeric separators, identifier escapes, class element combinations, `in` in for-initialisers, new/optional-chain/`**`/`??` grouping …) placed in 14 wrappers (top level, strict/sloppy function, arrow, generator, async, class method, block, module), script and module goal; domain = what V8 accepts in that goal; oracle: esbuild reports no error, output parses in V8 and jsref, Transform(output)==output modulo comments (default options), and every format/minify-whitespace/charset variant that is produced parses in the goal its format implies; non-trivial = every V8-accepted case from this table", len(rareSnippets)))
+	H.Rule("rare", fmt.Sprintf("rapid: sequences of 1–3 entries from a table of %d rare grammar productions (ASI boundaries, regex-vs-division, contextual keywords as identifiers, cover grammars, labelled functions, HTML comments, numeric separators, identifier escapes, class element combinations, `in` in for-initialisers, new/optional-chain/`**`/`??` grouping …) placed in 14 wrappers (top level, strict/sloppy function, arrow, generator, async, class method, block, module), script and module goal; domain = what V8 accepts in that goal; oracle: esbuild reports no error, output parses in V8 and jsref, Transform(output)==output modulo comments (default options), and every format/minify-whitespace/charset variant that is produced parses in the goal its format implies; non-trivial = every V8-accepted case from this table", len(jslib.RareSnippets)))
 	H.SetupRapid("rare", H.N(6000, 250000))
 	rapid.Check(t, func(rt *rapid.T) {
 		n := rapid.IntRange(1, 3).Draw(rt, "n")
 		var parts []string
 		for i := 0; i < n; i++ {
-			parts = append(parts, rapid.SampledFrom(rareSnippets).Draw(rt, "snippet"))
+			parts = append(parts, rapid.SampledFrom(jslib.RareSnippets).Draw(rt, "snippet"))
 		}
 		sep := rapid.SampledFrom([]string{"\n", ";\n", "\n;"}).Draw(rt, "sep")
 		body := strings.Join(parts, sep)
@@ -489,7 +490,7 @@ func runRare(t *testing.T) {
 func runRareTable(t *testing.T) {
 	H.Rule("raretable", "bounded-exhaustive: every table entry × every wrapper × {script, module}")
 	i := 0
-	for _, s := range rareSnippets {
+	for _, s := range jslib.RareSnippets {
 		for _, w := range wrappers {
 			for _, goal := range []string{"script", "module"} {
 				i++
